@@ -88,7 +88,7 @@ var filterCorpus = []string{"#", "+", "a/+/b", "a/#", "+/+", "/", "//", "a//b", 
 // matter to MQTT (wildcards, shared subscriptions with and without a filter part,
 // $-topics, empty levels), otherwise a generated string of the drawn length.
 func (g *G) Filter() []byte {
-	if len(LibraryWords) > 0 && g.T.Bool(1, 40) {
+	if len(LibraryWords) > 0 && g.T.Bool(1, 16) {
 		return []byte(LibraryWords[g.T.Int(len(LibraryWords))])
 	}
 	if g.T.Bool(1, 4) {
